@@ -76,9 +76,11 @@ CLAIMED = {
         note=N + " Matrix cells judged by truthiness (harness maps Python values to booleans).", design="6/C11", technique=T),
     "C13": dict(
         text="Proof (partial): in the model only neighbors() has a write effect; for it every fault point of the filter callback is "
-             "covered (state unchanged on a raise, retry gives the normal answer, memo coherent). For the other read-only entry points "
-             "the model functions are pure; that the Python has no other effect is decided by a per-case complete fault-point "
-             "enumeration on the implementation (vars() of every object before/after, retry equals normal answer).",
+             "covered (state unchanged on a raise, retry gives the normal answer, memo coherent), and so are the three traversals and "
+             "three searches run through the memo with a raising ff_via (graph unchanged however the call ends, memo coherent, the "
+             "retried call answers as on the original heap). For the renderers and the pickler the model functions are pure; that "
+             "the Python has no other effect is decided by a per-case complete fault-point enumeration on the implementation "
+             "(vars() of every object before/after, retry equals normal answer).",
         note=N, design="6/C13", technique="Coq proof (fault-able filter model) + fault-point enumeration on the implementation"),
     "C14": dict(
         text="Proof (structure; partial for text): declarations = members once each in order with the nearest configured class (MRO); "
